@@ -22,23 +22,13 @@ Definition wt_len {A : Type} (l : list A) : bool := Z.of_nat (length l) <=? max_
 Definition wt_binding (b : binding) : bool :=
   wt_str (b_name b) && in_int32 (b_line b) && in_int32 (b_col b).
 
-(* canonical decimal text, what big.Int.Text(10) produces: -?[1-9][0-9]* or 0 *)
-Definition is_digit (b : Z) : bool := (48 <=? b) && (b <=? 57).
-Definition is_decimal_text (s : bytes) : bool :=
-  match s with
-  | [48] => true
-  | 45 :: d :: r => (49 <=? d) && (d <=? 57) && forallb is_digit r
-  | d :: r => (49 <=? d) && (d <=? 57) && forallb is_digit r
-  | [] => false
-  end.
-
 Definition wt_const (c : const) : bool :=
   match c with
   | CString s => wt_str s
   | CBytes s => wt_str s
   | CInt z => in_int64 z
   | CFloat b => in_uint64 b
-  | CBigInt t => wt_str t && is_decimal_text t
+  | CBigInt z => Z.of_nat (length (print_dec z)) <=? max_int64   (* its decimal text fits a Go string *)
   end.
 
 Definition wt_funcode (f : funcode) : bool :=
